@@ -884,7 +884,7 @@ def _companion_rules_variant(repo, chk, rule, branch_rule, variant):
         raise ExtractError("%s: %s" % (rule, e))
 
 
-def manager_rules(repo, chk):
+def manager_rules(repo, chk, rule="R-C05-9"):
     """R-C05-9 (T3, bounded to the two fixture models).  WNTRSimulator._get_control_managers and _register_controls_with_observers interpreted on a bare simulator
     object holding the fixture model: (a) every control of the model is filed under exactly the managers its control type names (pre-solve: presolve and
     pre-and-postsolve; post-solve: postsolve and pre-and-postsolve; rules; feasibility) -- a control filed nowhere is never checked, one filed in the wrong phase is
@@ -925,7 +925,7 @@ def manager_rules(repo, chk):
                 k = kind(control)
                 want = sorted(m for m, ok in ALLOWED.items() if k in ok)
                 got = sorted(m for m, cs in held.items() if any(c is control for c in cs))
-                chk.expect(got == want and bool(want), "R-C05-9", "control %r (%s) of the model is filed under the managers of its type%s" % (cname, k, tagv), loc(gm),
+                chk.expect(got == want and bool(want), rule, "control %r (%s) of the model is filed under the managers of its type%s" % (cname, k, tagv), loc(gm),
                            "a control filed nowhere is never checked; one filed in the wrong phase is checked against the wrong state", expected=want, found=got)
             # (b) nothing misfiled, nothing lost among the internal controls
             supplied = [c for _n, c in list(call(wn, "controls"))]
@@ -934,7 +934,7 @@ def manager_rules(repo, chk):
             for m, ok in ALLOWED.items():
                 wrong = sorted({kind(c) for c in held[m]} - ok)
                 n_want = sum(1 for c in supplied if kind(c) in ok)
-                chk.expect(not wrong and len(held[m]) == n_want, "R-C05-9", "%s holds the %s controls the model and the builders of internal controls supply, and only those%s" % (
+                chk.expect(not wrong and len(held[m]) == n_want, rule, "%s holds the %s controls the model and the builders of internal controls supply, and only those%s" % (
                     m, " / ".join(sorted(ok)), tagv), loc(gm), expected="%d control(s) of type %s" % (n_want, sorted(ok)), found="%d held, foreign types %s" % (len(held[m]), wrong))
             # (c) the change tracker observes every action of every filed control
             tracker = I.getattr_(sim, "_change_tracker")
@@ -945,14 +945,14 @@ def manager_rules(repo, chk):
                     for a in call(c, "actions"):
                         if not any(a is o for o in observed):
                             missing.append("%s in %s" % (str(c)[:60], m))
-            chk.expect(not missing, "R-C05-9", "the change tracker observes every action of every control the simulator checks%s" % tagv, loc(ro),
+            chk.expect(not missing, rule, "the change tracker observes every action of every control the simulator checks%s" % tagv, loc(ro),
                        "changes_made() decides whether a step is re-solved: an action the tracker does not observe changes the network without a re-solve",
                        expected="all %d controls observed" % sum(len(v) for v in held.values()), found=missing[:4] or None)
         except ProgramError as e:
-            chk.bad("R-C05-9", "the simulator files its controls on the fixture model%s" % tagv, loc(gm), "the repository's own code (interpreted) raised", found="%s (line %s)" % (e, e.lineno))
+            chk.bad(rule, "the simulator files its controls on the fixture model%s" % tagv, loc(gm), "the repository's own code (interpreted) raised", found="%s (line %s)" % (e, e.lineno))
         except Unsupported as e:
-            raise ExtractError("R-C05-9: %s" % e)
-    chk.floor("R-C05-9", 40)
+            raise ExtractError("%s: %s" % (rule, e))
+    chk.floor(rule, 40)
 
 
 def run(repo, chk):
